@@ -31,7 +31,7 @@ def configs(tier):
         dict(name="fc-only", checks=["reg"], ctrl=[{}, dict(term_select=1), dict(xcvr_select=0)], phy=phy, converge=64),
         dict(name="fc+otg", checks=["reg"], ctrl=both, phy=phy, converge=64),
         dict(name="fc+tx", checks=["reg"], ctrl=both[:2], packets=pk, phy=phy, converge=64),
-        dict(name="fc+otg+tx", checks=["reg"], ctrl=both, packets=pk, phy=phy, converge=64),
+        dict(name="fc+otg+tx", checks=["reg"], ctrl=both[:3] if tier == "quick" else both, packets=pk, phy=phy, converge=64),
     ]
     if tier != "quick":
         rx = dict(rise0=True, rise1=True, rxcmds=[0x0D, 0x1E], rxbytes=[0x40])
